@@ -219,7 +219,7 @@ func init() {
 func init() {
 	props["C18"] = &propSpec{
 		Level:       "fault_enumeration",
-		Rule:        "for each seeded merge plan (1-3 inputs with doc values, synonyms, deletions; identical and different field lists): W = number of write callbacks of the uncancelled merge (the StatsReporter passed to Merge is called inside every write); the close channel is closed before the call and inside the k-th write for every k in 1..W+2, the whole sweep repeated 3 (quick) / 6 (thorough) times because sections are merged in map order; oracle per point: outcome is (closed error, no file) or (nil, complete file: footer/CRC + postings, stored, doc values, thesauri, vectors equal to model-merge), anything else is a violation; phases of the cancellation points (stored / sections / fields index / footer) are derived from byte positions. Schedule part (race detector): another goroutine closes the channel after a seeded number of yields. distinct = plan fingerprint; every plan is non-trivial (>= 40 cancellation points)",
+		Rule:        "for each seeded merge plan (1-3 inputs with doc values, synonyms, deletions; identical and different field lists): W = number of write callbacks of the uncancelled merge (the StatsReporter passed to Merge is called inside every write); the close channel is closed before the call and inside the k-th write for every k in 1..W+2, the whole sweep repeated 3 (quick) / 6 (thorough) times because sections are merged in map order; oracle per point: outcome is (closed error, no file) or (nil, complete file: footer/CRC + postings, stored, doc values, thesauri, vectors equal to model-merge), anything else is a violation; phases of the cancellation points (stored / sections / fields index / footer) are derived from byte positions; in the vectors flavour the channel is additionally closed inside the j-th engine call (read, reconstruct, factory, train, add, serialise) for every j, with the engine monitor checking that no native index is leaked. Schedule part (race detector): another goroutine closes the channel after a seeded number of yields. distinct = plan fingerprint; every plan is non-trivial (>= 40 cancellation points)",
 		Assumptions: commonAssumptions,
 		Runs: func(tier string) []runSpec {
 			return []runSpec{
@@ -228,8 +228,8 @@ func init() {
 				{Workload: "C18c", Flavour: "race", Shards: 8, TimeoutS: tq(tier, 900, 3600)},
 			}
 		},
-		Min: mins(map[string]int64{"cancellation_points": 10000, "cancel_closed": 5000, "cancel_complete": 200, "cancel_phase_stored": 500, "cancel_phase_sections": 3000, "cancel_phase_footer": 100, "schedule_rounds": 150},
-			map[string]int64{"cancellation_points": 200000, "cancel_closed": 100000, "cancel_complete": 4000, "cancel_phase_stored": 10000, "cancel_phase_sections": 60000, "cancel_phase_footer": 2000, "schedule_rounds": 1900}),
+		Min: mins(map[string]int64{"cancellation_points": 10000, "cancel_closed": 5000, "cancel_complete": 200, "cancel_phase_stored": 500, "cancel_phase_sections": 3000, "cancel_phase_footer": 100, "cancel_phase_engine_call": 50, "schedule_rounds": 150},
+			map[string]int64{"cancellation_points": 200000, "cancel_closed": 100000, "cancel_complete": 4000, "cancel_phase_stored": 10000, "cancel_phase_sections": 60000, "cancel_phase_footer": 2000, "cancel_phase_engine_call": 500, "schedule_rounds": 1900}),
 	}
 }
 
